@@ -38,6 +38,9 @@ CLAIM = dict(
 
 VARINPUT_SNIPPETS = ["A = 1", "甲 = “文本”", "A = 【1，2，3】", "A = 【K = 1】", "A = B", "A = 其B", "A = 1 + 2 * 3", "A 设为 -5", "A = （显示：1）",
                      "A = 以B（C）", "A = 1；B = 2", "A = 1\nB = A", "令A = 1", "A", "= 1", "A = ", "A = （新建 X）", "A#1 = 2", "A = 1 / 0",
+                     # texts that compile to a tree without any statement
+                     "注：说明", "// x", "/* x */", "注：「多\n行」", "导入《文件》", "导入《文件》\n导入《JSON》", "\u200b", " \u200b \n", "\n\n", "\t", "　",
+                     "注：a\n// b\n", "/**/", "A = 1 // 尾", "注：头\nA = 1",
                      "A = “{}”", "A = {1 + 2}", "A = 真 且 假", "A = （不存在：1）", "如果", "A = 【1，2】#5", "A = “x”之长度", "A = 空之X"]
 
 
@@ -148,7 +151,12 @@ def run(chk, replay=None):
     vin += [("snippet", s) for s in VARINPUT_SNIPPETS]
     for _ in range(150 if quick else 2000):
         k = rng.random()
-        if k < 0.4:
+        if k < 0.08:
+            # no statement at all: comments, imports, blanks (also the ones only the lexer treats as blank)
+            parts = [rng.choice(["注：x", "// y", "/* z */", "注：「a」", "导入《文件》", "\u200b", "", " ", "\t", "　", "/** b **/"])
+                     for _ in range(rng.randrange(1, 4))]
+            vin.append(("statement-less", rng.choice(["\n", "\r\n", "\n\n"]).join(parts)))
+        elif k < 0.4:
             vin.append(("fuzz", fc.fuzz_text(rng, 16)))
         elif k < 0.7:
             s = rng.choice(VARINPUT_SNIPPETS)
